@@ -202,6 +202,9 @@ func (s *Session) Check(extra []*term.Term, wantModel bool) (Result, map[string]
 		}
 	}
 	s.send("(pop 1)\n")
+	if s.Log != nil {
+		fmt.Fprintf(s.Log, "; => %v in %v\n", res, time.Since(start))
+	}
 	switch res {
 	case Sat:
 		s.Stats.Sat++
